@@ -108,7 +108,7 @@ def main():
     tasks = []
     for pid in args:
         for name, m in mutants_of(pid):
-            if only and only not in name:
+            if only and not any(o in name for o in only.split(",")):
                 continue
             for sd in seeds:
                 tasks.append((pid, name, m, sd))
